@@ -873,3 +873,12 @@ def _replay_c02_containers(verif):
 
 STATIC["guards_in_installation_order"] = dict(props=["C02"], fn=scan_guards_container, obligation="C02.order.container",
                                               replay_static=_replay_c02_containers, soft=True)
+
+
+# wave 11 (seed C08-k): "`times` is a call budget" is part of the common meaning every arm must obey (C08), not only of
+# C06: the per-arm budget / counting obligations are shared with C08
+for _n, _s in HARNESSES.items():
+    if re.match(r"arm_\d+$", _n) and "C06" in _s["props"]:
+        _k = _n.split("_")[1]
+        _s["shared"] = dict(_s.get("shared", {}), **{"C06.arm%s.budget" % _k: sorted(set(_s.get("shared", {}).get("C06.arm%s.budget" % _k, [])) | {"C08"}),
+                                                      "C06.arm%s.counts" % _k: sorted(set(_s.get("shared", {}).get("C06.arm%s.counts" % _k, [])) | {"C08"})})
